@@ -5,9 +5,10 @@ CONSTANTS
   PreVote <- TPreVote
   CheckQuorum <- TCQ
   Mut = ""
+  LazyApply = FALSE
   Collapsed = FALSE
   MaxAppEnts = 1
 CONSTRAINT HW
-INVARIANTS ElectionSafety LearnerNeverCampaignsOrVotes VoteOncePerTerm LogMatching CommittedNeverTruncated StateMachineSafety LeaderCompleteness RestartSound
+INVARIANTS ElectionSafety LearnerNeverCampaignsOrVotes VoteOncePerTerm LogMatching CommittedNeverTruncated StateMachineSafety LeaderCompleteness RestartSound ReadStateSafety
 POSTCONDITION Accepted
 CHECK_DEADLOCK FALSE
